@@ -827,9 +827,20 @@ int tls_process_client_hello_exts(const uint8_t *exts, size_t extslen, uint8_t *
 	int type;
 	const uint8_t *data;
 	size_t datalen;
+	int ec_point_formats_seen = 0;
+	int signature_algorithms_seen = 0;
+	int supported_groups_seen = 0;
 
 	while (extslen) {
 		if (tls_ext_from_bytes(&type, &data, &datalen, &exts, &extslen) != 1) {
+			error_print();
+			return -1;
+		}
+
+		// an extension type must not appear twice, every response is written to out once
+		if ((type == TLS_extension_ec_point_formats && ec_point_formats_seen++)
+			|| (type == TLS_extension_signature_algorithms && signature_algorithms_seen++)
+			|| (type == TLS_extension_supported_groups && supported_groups_seen++)) {
 			error_print();
 			return -1;
 		}
